@@ -131,6 +131,13 @@ theorem sg_decode_encode {p : Nat} [Fact p.Prime] (g m : Nat) (hord : m < orderO
 
 example : sgDecode 23 2 (powMod 2 7 23) = 7 := by decide +kernel
 
+/-- ★ `decode` is sound for EVERY group element: it either raises (`none` ≙ ValueError, repo fix df01afd) or returns m < 1024
+    with `g ** m` equal to its argument — never another message (before the fix an exhausted search returned 1023). -/
+theorem sg_decode_sound {p : Nat} [Fact p.Prime] (g M r : Nat) (h : sgDecode? p g M = some r) :
+    r < 1024 ∧ powMod g r p = M := MpycV.Groups.sg_decode_sound g M r h
+
+example : sgDecode? 23 2 (powMod 2 7 23) = some 7 := by decide +kernel
+
 /-! ## Edwards curves -/
 
 variable {K : Type} [Field K] [DecidableEq K]
